@@ -140,6 +140,15 @@ def frozen_args(args):
     if all(isinstance(a, Hashable) for a in args.values()):
         return frozenset(args.items())
     return tuple(args.items())
+
+def split_back(all_batches, progs):
+    total = sum(len(b) for b in all_batches)
+    step = total // max(len(progs), 1)
+    out = []
+    for batch, ps in zip(all_batches, progs):
+        for j in range(len(ps)):
+            out.append(batch[j * step:(j + 1) * step])
+    return out
 '''
     good = '''
 def make(a, opt=None):
@@ -240,10 +249,18 @@ def frozen_args(args):
         return frozenset(args.items())
     except TypeError:
         return tuple(args.items())
+
+def split_back(all_batches, progs):
+    out = []
+    for batch, ps in zip(all_batches, progs):
+        step = len(batch) // len(ps)
+        for j in range(len(ps)):
+            out.append(batch[j * step:(j + 1) * step])
+    return out
 '''
     rel = 'cirq-core/cirq/work/zz_fixture.py'
     base = core.Repo()
-    for src, want in ((bad, {'z_fwd': 1, 'z_drop': 1, 'z_pair': 2, 'z_get': 1, 'z_ctor': 1, 'z_opt': 1, 'z_gen': 1, 'z_memo': 1, 'z_first': 1, 'z_inv': 1, 'z_coord': 1, 'z_none': 1, 'z_loop': 1, 'z_stale': 1, 'z_mask': 1, 'z_hash': 1}), (good, {})):
+    for src, want in ((bad, {'z_fwd': 1, 'z_drop': 1, 'z_pair': 2, 'z_get': 1, 'z_ctor': 1, 'z_opt': 1, 'z_gen': 1, 'z_memo': 1, 'z_first': 1, 'z_inv': 1, 'z_coord': 1, 'z_none': 1, 'z_loop': 1, 'z_stale': 1, 'z_mask': 1, 'z_hash': 1, 'z_stride': 1}), (good, {})):
         r = core.Repo(overlay={rel: src}, base=base)
         ctx = report.Ctx('C18', 'quick', r)
         general.apply(ctx, 'C18')
